@@ -110,6 +110,28 @@ Theorem C20_program_with_python_predicates_all_styles : forall rules P ir irf sp
 Proof. exact source_interchangeable_all_styles. Qed.
 Print Assumptions C20_program_with_python_predicates_all_styles.
 
+(* ... hence, with C01 (ProgramCorrect.machine_computes_clause_semantics): rules compiled alone + Python predicates compute, for
+   every query, exactly the clause-level reference semantics of the WHOLE Prolog program rules ++ facts *)
+Theorem C20_python_predicates_compute_clause_semantics : forall rules specs ir irf,
+  compile_program rules = Some ir -> compile_program (rules ++ py_clauses specs) = Some irf ->
+  good_program rules -> Forall spec_ok specs -> NoDup (map fst specs) ->
+  (forall c, In c rules -> lookup_fix specs (c_name c) (length (c_args c)) = None) ->
+  (forall f, In f irf -> Resolve.reserved (fn_name f) = false) ->
+  forall n name args s,
+    nquery n (mk_world ir (py_table specs) [] []) name args s = solveA n (rules ++ py_clauses specs) name args s.
+Proof. exact python_predicates_compute_clause_semantics. Qed.
+Print Assumptions C20_python_predicates_compute_clause_semantics.
+
+(* ---- "next to dynamic facts": the stored facts of name/arity answer first, then the function found for the call *)
+Theorem C20_dynamic_facts_first : forall call w name args s,
+  Resolve.reserved name = false ->
+  nstep call w name args s =
+  (let d := match_rows (w_dyn w name (length args)) args s in
+   if snd d then (fst d, true)
+   else (fst d ++ fst (call_function call w name args s), snd (call_function call w name args s))).
+Proof. exact dynamic_facts_first. Qed.
+Print Assumptions C20_dynamic_facts_first.
+
 (* ---- args_in_call_order *)
 Theorem C20_args_in_call_order : forall call w g sargs r s f,
   w_fix w g (length sargs) = Some f -> Resolve.reserved g = false -> w_dyn w g (length sargs) = [] ->
